@@ -430,9 +430,9 @@ func perturb(r *rng, f []byte, full bool) []reply {
 			out = append(out, reply{"truncated", append([]byte(nil), f[:n]...)})
 		}
 	}
-	// two-byte big-endian fields +-256 / +-1 at every even offset of the first 80 bytes
+	// two-byte big-endian fields +-256, +1, -1, -2, -3 (identifiers just below the first one of the run) at every offset of the first 100 bytes
 	for i := 0; i+1 < len(f) && i < 100; i++ {
-		for _, dlt := range []int{256, -256, 1} {
+		for _, dlt := range []int{256, -256, 1, -1, -2, -3} {
 			g := append([]byte(nil), f...)
 			v := int(binary.BigEndian.Uint16(g[i:])) + dlt
 			binary.BigEndian.PutUint16(g[i:], uint16(v))
@@ -484,6 +484,9 @@ func drvConfigs(r *rng, thorough bool) []drvCfg {
 		for _, v6 := range []bool{false, true} {
 			rg := pick(r, ranges)
 			c := drvCfg{variant: vIcmp, v6: v6, first: rg[0], last: rg[1], local: l4a, target: t4a, echoCounter: pick(r, []uint32{0, 65534, 65535, 0x1ffff, r.u32()})}
+			if k == 0 {
+				c.echoCounter = 65535 // always: the echo identifier counter at the 16-bit wrap
+			}
 			if v6 {
 				c.local, c.target = l6a, t6a
 			}
@@ -501,8 +504,13 @@ func drvConfigs(r *rng, thorough bool) []drvCfg {
 		for _, paris := range []bool{false, true} {
 			for _, lo := range []bool{false, true} {
 				rg := pick(r, ranges)
-				out = append(out, drvCfg{variant: vTcp, first: rg[0], last: rg[1], local: l4a, target: t4a, sport: pick(r, []int{1, 65535, 50000 + r.intn(9000)}), dport: pick(r, []int{80, 443, 65535, 1}),
-					loosen: lo, paris: paris, baseID: pick(r, []int{0, 65535, 65400, int(r.u16())}), seq: pick(r, []uint32{0, 0xffffffff, 0xfffffffe, r.u32()})})
+				tc := drvCfg{variant: vTcp, first: rg[0], last: rg[1], local: l4a, target: t4a, sport: pick(r, []int{1, 65535, 50000 + r.intn(9000)}), dport: pick(r, []int{80, 443, 65535, 1}),
+					loosen: lo, paris: paris, baseID: pick(r, []int{0, 65535, 65400, int(r.u16())}), seq: pick(r, []uint32{0, 0xffffffff, 0xfffffffe, r.u32()})}
+				if k == 0 && !paris && !lo {
+					// always: the IP identifications of TTLs 1..6 straddle the 16-bit wrap (65535 + 1 = 0, then 1, 2, ...)
+					tc.first, tc.last, tc.baseID = 1, 6, 65535
+				}
+				out = append(out, tc)
 			}
 		}
 		for _, lo := range []bool{false, true} {
